@@ -72,7 +72,7 @@ def make_jobs(tier, seed, want):
                 continue
             out.append(dict(h="gen", gen=gen, r=r, c=c, kwargs=kw, max_seconds=3300))
     # Wilson: unbounded walks, explored up to a total walk-step bound K (longer executions are cut and counted)
-    wil = [((1, 1), 4), ((1, 2), 8), ((2, 1), 8), ((1, 3), 8), ((2, 2), 8 if q else 12)] + ([((2, 3), 7), ((3, 2), 7)] if q else [((2, 3), 10), ((3, 2), 10), ((3, 3), 9)])
+    wil = [((1, 1), 4), ((1, 2), 8), ((2, 1), 8), ((1, 3), 8), ((2, 2), 8 if q else 12)] + ([((2, 3), 7), ((3, 2), 7)] if q else [((2, 3), 9), ((3, 2), 9), ((3, 3), 7)])
     for (r, c), K in wil:
         if r * c <= 4:
             out.append(dict(h="gen", gen="gen_wilson", r=r, c=c, kwargs={}, K=K))
@@ -147,7 +147,7 @@ META = dict(
               "(accessible_cells in {None,0,1,2,rc-1,rc,rc+1,0.0,0.5,1.0}, max_tree_depth in {None,0,1,2,3,0.5,1.0}, do_forks, randomized_stack, "
               "start_coord) one-at-a-time plus seeded combinations; gen_dfs 3x3 and on corridors 1x130, 131x1 with a given start cell (beyond the int8 coordinate range); percolation 3x3 (p in {0.4,0,1}); Wilson on <=2x2 with total "
               "walk bound K=8 and 2x3/3x2 with K=7",
-        thorough="as quick plus gen_dfs 3x4/4x3/4x4, gen_prim / randomized_stack on 3x3 only with accessible_cells <= 5, percolation 3x4, dfs_percolation 3x3, Wilson 2x2 K=12, 2x3/3x2 K=10, 3x3 K=9",
+        thorough="as quick plus gen_dfs 3x4/4x3/4x4, gen_prim / randomized_stack on 3x3 only with accessible_cells <= 5, percolation 3x4, dfs_percolation 3x3, Wilson 2x2 K=12, 2x3/3x2 K=9, 3x3 K=7 (K=9 on 3x3 did not finish within the 55-minute instance budget)",
     ),
     degenerate=dict(gen_dfs="each path is one concrete random execution (draws are concretised when used as indices): exhaustive "
                             "enumeration of the RNG decision tree within the bound; percolation variants keep the edge bits symbolic"),
